@@ -1946,6 +1946,14 @@ impl<'t, 'c> Gen<'t, 'c> {
             let body = vec![Stmt::Assign(sv(&pn, 0, *t), Expr::Load(sv(&vn, 1, *t)))];
             self.prog.procs.push(Proc { name: format!("Set{}", k + 1), ret: None, params, is_static: false, body, vars, result_var: None });
         }
+        // the identity on INTEGERs (for subscripts that contain a user call)
+        let idn = self.prog.procs.len();
+        {
+            let params = vec![Param { name: "X%".into(), var: 0, sty: STy::B(Ty::Int), array: false, extended: false }];
+            let vars = vec![VarInfo { name: "X%".into(), sty: STy::B(Ty::Int), bounds: vec![], shared: false }, VarInfo { name: "Idn%".into(), sty: STy::B(Ty::Int), bounds: vec![], shared: false }];
+            let body = vec![Stmt::Assign(sv("Idn%", 1, Ty::Int), Expr::Load(sv("X%", 0, Ty::Int)))];
+            self.prog.procs.push(Proc { name: "Idn%".into(), ret: Some(Ty::Int), params, is_static: false, body, vars, result_var: Some(1) });
+        }
         // operations
         let mut all: Vec<ArrInfo> = arrays.iter().cloned().chain(scalars.iter().cloned()).collect();
         let nops = 2 + self.t.choose(10);
@@ -1977,7 +1985,25 @@ impl<'t, 'c> Gen<'t, 'c> {
                     _ => self.t.range(*lo as i64, *hi as i64) as i32,
                 }
             }).collect();
-            let index: Vec<Expr> = idx_vals.iter().map(|v| self.index_expr(*v)).collect();
+            let mut index: Vec<Expr> = idx_vals.iter().map(|v| self.index_expr(*v)).collect();
+            // subscripts that contain calls: LBOUND / UBOUND of the array itself, a user FUNCTION (the identity)
+            for (d, v) in idx_vals.iter().enumerate() {
+                if self.t.chance(1, 6) {
+                    let arr_ref = LValue { name: target.name.clone(), var: target.var, index: vec![], fields: vec![], sty: target.sty.clone() };
+                    let (lo, hi) = target.bounds[d];
+                    index[d] = match self.t.choose(3) {
+                        0 => {
+                            let ub = Expr::BuiltIn { name: "UBOUND".into(), args: vec![Expr::Load(arr_ref), lit_i(d as i64 + 1)], ty: Ty::Int };
+                            if *v == hi { ub } else { b(BinOp::Sub, ub, lit_i((hi - v) as i64)) }
+                        }
+                        1 => {
+                            let lb = Expr::BuiltIn { name: "LBOUND".into(), args: vec![Expr::Load(arr_ref), lit_i(d as i64 + 1)], ty: Ty::Int };
+                            if *v == lo { lb } else { b(BinOp::Add, lb, lit_i((v - lo) as i64)) }
+                        }
+                        _ => Expr::Call(idn, vec![lit_i(*v as i64)]),
+                    };
+                }
+            }
             let fields = self.spell_fields(&fields, &lsty);
             let lv = LValue { name: target.name.clone(), var: target.var, index, fields, sty: lsty.clone() };
             if lsty.ety().map(|t| t.is_numeric()).unwrap_or(false) && self.t.chance(1, 8) {
